@@ -160,6 +160,23 @@ func init() {
 		c.SkipAlign()
 		return fmt.Sprintf("%d %d", c.Offset(), c.BaseOffset())
 	}
+	// balignn o0 o1 .. ok: nested SliceDecoders, each advanced by the next offset; SkipAlign on the innermost
+	runners["balignn"] = func(a []string) string {
+		total := 0
+		for _, x := range a {
+			total += atoi(x)
+		}
+		d := ofbase.NewDecoder(make([]byte, total+64))
+		d.Skip(atoi(a[0]))
+		remaining := total - atoi(a[0])
+		for _, x := range a[1:] {
+			d = d.SliceDecoder(remaining+32, 0)
+			d.Skip(atoi(x))
+			remaining -= atoi(x)
+		}
+		d.SkipAlign()
+		return fmt.Sprintf("%d %d", d.Offset(), d.BaseOffset())
+	}
 	runners["bhdr"] = func(a []string) string {
 		d := ofbase.NewDecoder(backing(unhex(a[0]), atoi(a[1])))
 		var h ofbase.Header
@@ -253,6 +270,22 @@ func init() {
 			for o := 0; o <= 40; o++ {
 				c.run("balign", b, o)
 			}
+		}
+		// nested slicing: every (o0, o1, o2) mod 8 at depth 2, random chains up to depth 5
+		for o0 := 0; o0 < 8; o0++ {
+			for o1 := 0; o1 < 8; o1++ {
+				for o2 := 0; o2 < 8; o2++ {
+					c.run("balignn", o0, o1+8*c.rng.Intn(3), o2)
+				}
+			}
+		}
+		for i := 0; i < 400; i++ {
+			n := 2 + c.rng.Intn(5)
+			var as []interface{}
+			for k := 0; k < n; k++ {
+				as = append(as, c.rng.Intn(23))
+			}
+			c.run("balignn", as...)
 		}
 		// header decode: all short inputs 0..7 (and with spare capacity), exact and long
 		full := "0405001011223344aabbccddeeff0011"
